@@ -168,6 +168,22 @@ for _i, (_t, _x) in EXT.items():
 for _i, (_t, _x) in EXT2.items():
     CLAIMS[_i]["technique"] += _t
     CLAIMS[_i]["text"] += _x
+EXT3 = {
+ "C02": ("; fresh-result rule", " Added: no []byte returned by an exported method of the response types is built in the receiver's own storage (two calls would share it)."),
+ "C03": ("; header decode on every path; Marshal idempotence on a fresh local block", " Added: the SecurityFeatures bytes are handed to their decoder on every path to a success return of Header.Unmarshal; untraced integer slots of the header are resolved by their bit lanes; an accumulating call on a block freshly constructed in the same Marshal is idempotent."),
+ "C04": ("; append-in-place rule", " Added: no encoder appends onto a slice field of its receiver without storing the result back (the backing array may be shared with the caller)."),
+ "C05": ("; one-layout-on-every-path and append-in-place rules", " Added: AndX.GetParameters returns the same word layout whatever the field values are; no encoder appends onto a slice field of its receiver without storing the result back."),
+ "C06": ("; append-in-place rule", " Added: no encoder appends onto a slice field of its receiver without storing the result back."),
+ "C11": ("; helper tuple results followed, defer-spilled returns read back", " Added: framing moved into in-module helpers returning (value, error) is followed (the helper's failure returns are ignored only where every use sits under the caller's err == nil edge; upper bounds the helper establishes on its integer parameter are conditional postconditions of its nil error); results spilled for a defer are read back from their store; the synthetic recover block is ignored when no deferred call can recover; a payload size that is the decoded length adjusted by constant arithmetic is a finding; lanes of unknown provenance are NOT DECIDED."),
+ "C12": ("; shared block mode rule", " Added: CryptBlocks is not run on a block mode held in a package-level variable (its CBC chaining value survives the call)."),
+ "C15": ("; modular unsigned arithmetic judged on the pre-conversion operands", " Added: an unsigned add/sub/neg whose operands are same-width conversions of signed values is proved exact when the sum/difference/negation of the values before conversion lies in the unsigned range; such a conversion is accepted only when every use is such an operation or sits where the source value is proved to fit; operands of math/bits Mul64/Add64/Sub64/Div64 keep their arithmetic roles in the unit table."),
+ "C17": ("; stale-lookup rule", " Added: no path table-lookup → Unlock → Lock → use of the looked-up value (check-then-act across a lock gap)."),
+ "C18": ("; lock pairing and partial connection key rules", " Added: every Lock()/RLock() in the server packages is released on every path to a return (call or registered defer); a connection-registry key is not a part of RemoteAddr() (host without port)."),
+ "C19": ("; decode-resets rule", " Added: a slice field grown by f = append(f, …) in a flags decoder is first assigned a value independent of its previous contents."),
+}
+for _i, (_t, _x) in EXT3.items():
+    CLAIMS[_i]["technique"] += _t
+    CLAIMS[_i]["text"] += _x
 for _i in CLAIMS:
     CLAIMS[_i]["text"] += POLICY
 
